@@ -58,8 +58,9 @@ func names(thorough bool) []string {
 type stubs struct {
 	mu      sync.Mutex
 	servers []*httptest.Server
-	n       int    // shard count currently advertised
-	hits    [][]string // per server: probe paths received
+	n       int                                                  // shard count currently advertised
+	answer  func(self string) *proxyv1alpha1.RateLimitServerInfo // when set: the server-info answer to give
+	hits    [][]string                                           // per server: probe paths received
 }
 
 func newStubs(k int) *stubs {
@@ -71,6 +72,10 @@ func newStubs(k int) *stubs {
 			defer s.mu.Unlock()
 			switch {
 			case r.URL.Path == clientsets.ServerInfoUrl:
+				if s.answer != nil {
+					_ = json.NewEncoder(w).Encode(s.answer(s.servers[i].URL))
+					return
+				}
 				info := proxyv1alpha1.RateLimitServerInfo{Server: s.servers[i].URL, ShardCount: int32(s.n)}
 				for sh := 0; sh < s.n && sh < 64; sh++ {
 					info.Endpoints = append(info.Endpoints, proxyv1alpha1.EndpointInfo{ShardID: int32(sh), Leader: s.servers[sh%len(s.servers)].URL})
@@ -158,6 +163,136 @@ func gatewaySide(c *ev.Check, nseq []int, probeNames []string, all []string) {
 			}
 		}
 	}
+}
+
+// leaderKnowledge: sequences of server-info answers that are partial (a shard has no known leader yet: the limiter
+// server only lists shards whose lease it has observed), re-ordered, or re-assign leaders. After each answer every
+// upstream's request must reach the server LAST REPORTED as leader of its shard, and must not be sent anywhere while
+// no leader was ever reported for that shard.
+type infoAnswer struct {
+	mask  uint // which shards are listed
+	rot   int  // leader of shard sh is server (sh+rot)%k
+	order int  // 0 ascending shard ids, 1 descending
+}
+
+func (a infoAnswer) String() string {
+	return fmt.Sprintf("{listed=%03b rot=%d order=%d}", a.mask, a.rot, a.order)
+}
+
+func leaderKnowledge(c *ev.Check, n int, seq []infoAnswer, probeNames []string) {
+	st := newStubs(4)
+	defer st.close()
+	v, cs := clientsets.VerifNew(st.servers[0].URL, "gw1", &rest.Config{QPS: 10000, Burst: 10000})
+	known := map[int]int{}
+	for step, a := range seq {
+		a := a
+		st.mu.Lock()
+		st.answer = func(self string) *proxyv1alpha1.RateLimitServerInfo {
+			info := &proxyv1alpha1.RateLimitServerInfo{Server: self, ShardCount: int32(n)}
+			for i := 0; i < n; i++ {
+				sh := i
+				if a.order == 1 {
+					sh = n - 1 - i
+				}
+				if a.mask&(1<<uint(sh)) != 0 {
+					info.Endpoints = append(info.Endpoints, proxyv1alpha1.EndpointInfo{ShardID: int32(sh), Leader: st.servers[(sh+a.rot)%len(st.servers)].URL})
+				}
+			}
+			return info
+		}
+		st.mu.Unlock()
+		v.Sync()
+		for sh := 0; sh < n; sh++ {
+			if a.mask&(1<<uint(sh)) != 0 {
+				known[sh] = (sh + a.rot) % len(st.servers)
+			}
+		}
+		c.Add("knowledge_steps", 1)
+		for _, name := range probeNames {
+			sh := limutil.GetShardID(name, n)
+			want, has := known[sh]
+			cl, err := cs.ClientFor(name)
+			replay := map[string]interface{}{"shards": n, "answers": fmt.Sprint(seq[:step+1]), "name": name}
+			if !has {
+				if err == nil {
+					c.Violation("leaderless-shard-addressed", fmt.Sprintf("N=%d after answers %v: no leader was ever reported for shard %d, but a request for upstream %q (shard %d) is handed a client", n, seq[:step+1], sh, name, sh), replay)
+				}
+				c.Outcome("knowledge", fmt.Sprintf("%d/%v/none", n, a))
+				continue
+			}
+			if err != nil {
+				c.Violation("known-leader-not-addressed", fmt.Sprintf("N=%d after answers %v: server #%d was reported as leader of shard %d, but a request for upstream %q fails: %v", n, seq[:step+1], want, sh, name, err), replay)
+				continue
+			}
+			tag := fmt.Sprintf("k%d-%d", step, c.Counter("probes"))
+			c.Add("probes", 1)
+			_ = cl.ProxyV1alpha1().RESTClient().Get().AbsPath("/probe/" + tag).Do(context.TODO()).Error()
+			st.mu.Lock()
+			got := -1
+			for i, h := range st.hits {
+				for _, t := range h {
+					if t == tag {
+						got = i
+					}
+				}
+			}
+			st.mu.Unlock()
+			c.Outcome("knowledge", fmt.Sprintf("%d/%v/%d", n, a, got))
+			if got != want {
+				c.Violation("wrong-leader-addressed", fmt.Sprintf("N=%d after answers %v: the request for upstream %q (shard %d) went to server #%d; the leader last reported for that shard is server #%d", n, seq[:step+1], name, sh, got, want), replay)
+			}
+		}
+	}
+}
+
+func knowledgeTasks(c *ev.Check) []ev.Task {
+	var tasks []ev.Task
+	for _, n := range []int{2, 3} {
+		n := n
+		// one probe name per shard
+		var probeNames []string
+		for sh := 0; sh < n; sh++ {
+			for i := 0; ; i++ {
+				if nm := fmt.Sprintf("up-%d", i); limutil.GetShardID(nm, n) == sh {
+					probeNames = append(probeNames, nm)
+					break
+				}
+			}
+		}
+		var answers []infoAnswer
+		for mask := uint(0); mask < 1<<uint(n); mask++ {
+			for rot := 0; rot < 2; rot++ {
+				for order := 0; order < 2; order++ {
+					if (mask == 0 && (rot > 0 || order > 0)) || (mask&(mask-1) == 0 && order > 0) {
+						continue // same answer
+					}
+					answers = append(answers, infoAnswer{mask, rot, order})
+				}
+			}
+		}
+		depth := c.Pick(2, 3)
+		if n == 2 {
+			depth = 3
+		}
+		for _, first := range answers {
+			first := first
+			tasks = append(tasks, ev.Task{Name: fmt.Sprintf("leader-knowledge/N=%d/%v", n, first), Run: func() {
+				var rec func(seq []infoAnswer)
+				rec = func(seq []infoAnswer) {
+					if len(seq) == depth {
+						leaderKnowledge(c, n, seq, probeNames)
+						c.Add("knowledge_sequences", 1)
+						return
+					}
+					for _, a := range answers {
+						rec(append(append([]infoAnswer{}, seq...), a))
+					}
+				}
+				rec([]infoAnswer{first})
+			}})
+		}
+	}
+	return tasks
 }
 
 type serverShards int
@@ -408,6 +543,7 @@ func main() {
 		n := n
 		tasks = append(tasks, ev.Task{Name: fmt.Sprint("server-side", n), Run: func() { serverSide(c, n, probe[:c.Pick(120, 600)]) }})
 	}
+	tasks = append(tasks, knowledgeTasks(c)...)
 	tasks = append(tasks, xstate.Tasks(c, specLeader("local"), c.Pick(10, 14), 16)...)
 	tasks = append(tasks, xstate.Tasks(c, specLeader("k8s"), c.Pick(9, 12), 16)...)
 	c.RunTasks(tasks)
@@ -416,6 +552,7 @@ func main() {
 		"transitions":                   c.Counter("transitions"),
 		"traces_validated_against_impl": c.Counter("replays"),
 		"mapping_evaluations":           c.Counter("shard_evaluations") + c.Counter("server_side_evaluations"),
-		"explanation":                   "states/transitions: leadership-history search on the real rateLimiter+leaderElector (per first-event shard); mapping_evaluations: (name, N) pairs compared between the real gateway-side clientSets and the real limiter server, including live shard-count changes; probes: requests issued through ClientFor and located at the stub that received them.",
+		"leader_knowledge_sequences":    c.Counter("knowledge_sequences"),
+		"explanation":                   "states/transitions: leadership-history search on the real rateLimiter+leaderElector (per first-event shard); mapping_evaluations: (name, N) pairs compared between the real gateway-side clientSets and the real limiter server, including live shard-count changes; probes: requests issued through ClientFor and located at the stub that received them; leader_knowledge_sequences: every sequence (length 2-3) of server-info answers over {listed subset of shards x leader assignment x listing order} for N=2,3, each followed by one request per shard.",
 	})
 }
